@@ -28,9 +28,9 @@ THEOREMS = [
 _NET = "harness/httpserver/zz_verif_c07_net_test.go"
 HARNESSES = [
     dict(name="e2e", pkg="pkg/object/httpserver", files=[_NET, "harness/httpserver/zz_verif_c03_e2e_test.go"],
-         run="TestVerifC03E2E", groups=["e2e", "hist"], timeout=900, share=0.5),
+         run="TestVerifC03E2E", groups=["e2e", "hist"], timeout=900, share=0.44),
     dict(name="unit", pkg="pkg/filters/proxy", files=["harness/proxy/zz_verif_c03_unit_test.go"],
-         run="TestVerifC03Unit", groups=["hop", "addr"], timeout=600, share=0.5),
+         run="TestVerifC03Unit", groups=["hop", "addr"], timeout=600, share=0.56),
 ]
 GROUPS = {"e2e": "(check_e2e_with pinned)", "hist": "(check_hist_with pinned)", "hop": "check_hop", "addr": "check_addr"}
 EXPLAIN = {"e2e": "(explain_e2e_with pinned)", "hist": "(explain_hist_with pinned)", "hop": "explain_hop", "addr": "explain_addr"}
@@ -47,7 +47,8 @@ RULE = ("e2e cases: methods (incl. extension methods) x request-targets with per
         "identical servers) for the Host rule; one case in 20 follows a label schedule (every Content-Encoding shape x ResponseAdaptor decompress buffered/stream, "
         "proxy compression, ResponseAdaptor compress, untouched); one case in 20 follows a boundary schedule: every body-transforming path (proxy compression, transparent gunzip, "
         "Request/ResponseAdaptor compress and decompress, pass-through; buffered and stream) with a (decoded) body of exactly k x the gzip reader's round "
-        "(8 pages), k x {2048, 4096, 8 pages, 16 pages} and one byte off; the gzip oracle is compress/gzip in one shot, not easegress' own reader; hist cases (1 in 10): 3..8 requests against ONE pipeline whose pool has a memoryCache (codes / methods / maxEntryBytes), the same "
+        "(8 pages), k x {2048, 4096, 8 pages, 16 pages} and one byte off; the gzip oracle is compress/gzip in one shot, not easegress' own reader; overlap histories (1 in 60; every fourth in stream mode): after a warm-up compressed response two compressed responses are in flight together "
+        "(A's backend parks mid-body - in stream mode after the client has seen A's head -, B runs completely, A finishes), each judged as a single exchange; hist cases (1 in 10): 3..8 requests against ONE pipeline whose pool has a memoryCache (codes / methods / maxEntryBytes), the same "
         "cacheable request repeated (miss, hits) interleaved with other resources, other methods, Cache-Control no-cache / no-store requests and answers, a distinct backend "
         "answer per step, ResponseAdaptor header del/set/add, body, compress, decompress after the Proxy; hop cases: cloneHeader on "
         "random header maps; addr cases: Server.checkAddrPattern on URL shapes (IPv4/IPv6 literals, ports, brackets, names); non-trivial = the "
